@@ -4,7 +4,7 @@ CONSTANTS
   Sizes = {200, 300, 999999, 1000000, 1000001}
   EventMax = 1000000
   BodyMax = 5000000
-  MaxBatch = 7
+  MaxBatch = 6
   Sub = 1
   MaxEvents = 1000000
   MaxNow = 100000000
